@@ -333,6 +333,18 @@ func init() {
 		"sync/atomic.CompareAndSwapInt32": atomicCAS,
 		"sync/atomic.SwapInt64": atomicSwap,
 		"sync/atomic.SwapInt32": atomicSwap,
+		"crypto/rand.Read": func(ex *Exec, _ *frame, _ *ssa.Function, a []Value) (Value, bool) {
+			// entropy is never used by the checks (the counter's source is replaced): zeros
+			b := a[0].([]Value)
+			for i := range b {
+				b[i] = int64(0)
+			}
+			return tuple{int64(len(b)), iface{}}, true
+		},
+		"math/rand/v2.NewChaCha8": func(ex *Exec, _ *frame, fn *ssa.Function, a []Value) (Value, bool) {
+			cell := zero(deref(fn.Signature.Results().At(0).Type()))
+			return &cell, true
+		},
 		"(*sync.Pool).Get": func(ex *Exec, caller *frame, fn *ssa.Function, a []Value) (Value, bool) {
 			p := a[0].(*Value)
 			if l := ex.pool[p]; len(l) > 0 {
